@@ -17,7 +17,8 @@
 (* known_c12.json does not stop the search.                                 *)
 (*                                                                         *)
 (* The parameter set is chosen in Init from params.json, so one run covers  *)
-(* all of them.                                                            *)
+(* all of them; a set may give every version its own four parameters --    *)
+(* both functions take them from the ACTIVE version (P below).             *)
 (***************************************************************************)
 EXTENDS VersionUpgradeProp, TLC, Json
 
@@ -40,10 +41,14 @@ VARIABLES ps,     \* index of the parameter set
           hist    \* the chain after genesis (generation only; not part of the VIEW)
 vars == <<ps, h, seen, H, bad, pbad, hist>>
 
-P == PS[ps]
+PP == PS[ps]
+P == PV(PP, h.cv)      \* the parameters of the ACTIVE version of the last accepted header (prevProto in both Go functions)
 Min(a, b) == IF a < b THEN a ELSE b
-MaxR == IF Tight THEN Min(MaxRound, P.vr + P.maxw + 3) ELSE MaxRound
-FMax == IF Tight THEN Min(FldMax, P.vr + P.maxw + 3) ELSE FldMax
+Max(a, b) == IF a > b THEN a ELSE b
+Span == LET sp(v) == PV(PP, v).vr + PV(PP, v).maxw IN Max(sp(1), Max(sp(2), sp(9)))
+MaxWaitAll == Max(PV(PP, 1).maxw, Max(PV(PP, 2).maxw, PV(PP, 9).maxw))
+MaxR == IF Tight THEN Min(MaxRound, Span + 3) ELSE MaxRound
+FMax == IF Tight THEN Min(FldMax, Span + 3) ELSE FldMax
 
 Init == ps \in DOMAIN PS /\ h = Genesis /\ seen = {1} /\ H = H0 /\ bad = {} /\ pbad = {} /\ hist = <<>>
 
@@ -66,16 +71,16 @@ Spec == Init /\ [][Next]_vars
 
 \* ---------------------------------------------------------------- what TLC checks
 Cex(clause, c) == PrintT("@@J " \o ToJson([kind |-> "CEX", clause |-> clause,
-                                           h |-> [P |-> P, chain |-> Append(hist, <<c.cv, c.nv, c.ap, c.vb, c.so>>)]])) /\ FALSE
+                                           h |-> [P |-> PP, chain |-> Append(hist, <<c.cv, c.nv, c.ap, c.vb, c.so>>)]])) /\ FALSE
 
 \* (c) every header the verifier accepts on a reachable prev is a SafeStep (or a named, known deviation).  Every candidate
 \* with fields in 0..FMax is tried by Next; pbad is part of the VIEW, so every accepted transition is judged.
-VerifierSafe == pbad = {} \/ (PrintT("@@J " \o ToJson([kind |-> "CEX", clause |-> pbad, h |-> [P |-> P, chain |-> hist]])) /\ FALSE)
+VerifierSafe == pbad = {} \/ (PrintT("@@J " \o ToJson([kind |-> "CEX", clause |-> pbad, h |-> [P |-> PP, chain |-> hist]])) /\ FALSE)
 
 \* (b) every header the builder derives is accepted by the verifier and is a SafeStep, for every table a live node can have
 KnownSets == { K \in SUBSET Vers : seen \subseteq K }
 BuilderOk ==
-   \A K \in KnownSets, appr \in {0, 1}, wait \in 0..(P.maxw + 1) :
+   \A K \in KnownSets, appr \in {0, 1}, wait \in 0..(MaxWaitAll + 1) :
       LET out == BuilderNext(P, K, appr, wait, h) IN
       out # NoHdr =>
          /\ \/ BuilderAccepted(Verify(P, K, h, out, Fixed), Verify(P, Vers, h, out, Fixed))
@@ -89,7 +94,7 @@ BuilderOk ==
 ChainStatement == bad = {}
 \* ---------------------------------------------------------------- generation
 \* an INVARIANT (evaluated once per distinct state of the VIEW): one witness chain per reachable header state
-GenStates == (GenMode = "states") => PrintT("@@J " \o ToJson([kind |-> "B", h |-> [P |-> P, chain |-> hist]]))
+GenStates == (GenMode = "states") => PrintT("@@J " \o ToJson([kind |-> "B", h |-> [P |-> PP, chain |-> hist]]))
 
 ViewV == <<ps, h, seen, pbad>>
 ViewS == <<ps, h, seen, H, bad>>
